@@ -1,13 +1,65 @@
 (** Property C11 — Go code around templates, package clause and imports pass through intact.
-    OBLIGATIONS: C11_nonvacuous *)
-From GV Require Import Compiler.Compile.
+    Together with C15_file_is_concatenation (the file is the header followed by the items' own code) these say:
+    every run of Go code between templates is written out as the concatenation of its tokens' literals, a
+    template starts with `func ` followed by exactly the written declaration, and the header is the package
+    clause, goht's imports once, and the user's imports in first-occurrence order without duplicates.
+    (That the lexer's tokens for a Go line spell that line is part of the byte-exact correspondence, not of a theorem.)
+    OBLIGATIONS: C11_go_code_verbatim C11_template_signature C11_header C11_imports_no_duplicates C11_imports_keep_order
+                 C11_import_not_lost C11_nonvacuous *)
+From GV Require Import Compiler.Compile Proofs.EmitProofs Proofs.PassThroughProofs.
+Open Scope N_scope.
+
+Theorem C11_go_code_verbatim : forall toks ch,
+  item_text (Node (KCode toks) ch) = List.concat (map t_lit toks) /\ item_err (Node (KCode toks) ch) = None.
+Proof. exact code_item_verbatim. Qed.
+Print Assumptions C11_go_code_verbatim.
+
+Theorem C11_template_signature : forall o ch,
+  exists rest, item_text (Node (KGoht o) ch) = lit "func " ++ t_lit o ++ c_gohtEntry ++ rest.
+Proof. exact goht_item_signature. Qed.
+Print Assumptions C11_template_signature.
+
+Theorem C11_header : forall pkg user,
+  header_text pkg user =
+    c_header ++ lit "package " ++ t_lit pkg ++ [10; 10] ++
+    List.concat (map (fun i => lit "import " ++ i ++ [10]) c_rootImports) ++
+    match user with
+    | [] => []
+    | _ => lit "import (" ++ [10] ++ List.concat (map (fun i : token => [9] ++ t_lit i ++ [10]) user) ++ lit ")" ++ [10]
+    end.
+Proof. exact header_text_is. Qed.
+Print Assumptions C11_header.
+
+(** the import list the parser keeps: each `import` line goes through [add_import] *)
+Theorem C11_imports_no_duplicates : forall user t, imports_wf user -> imports_wf (add_import user t).
+Proof. exact add_import_wf. Qed.
+Print Assumptions C11_imports_no_duplicates.
+
+Theorem C11_imports_keep_order : forall user t, exists tail, add_import user t = user ++ tail /\ (tail = [] \/ tail = [t]).
+Proof. exact add_import_keeps. Qed.
+Print Assumptions C11_imports_keep_order.
+
+Theorem C11_import_not_lost : forall user t,
+  mem_bytes (t_lit t) c_rootImports = true \/ In (t_lit t) (map t_lit (add_import user t)).
+Proof. exact add_import_present. Qed.
+Print Assumptions C11_import_not_lost.
+
+(** a real file: its root has well-formed imports although the source repeats one and names one of goht's own;
+    the Go lines come out as written *)
+Definition lits_nodup (user : list token) : bool :=
+  (fix nd (l : list bytes) : bool := match l with [] => true | x :: r => negb (mem_bytes x r) && nd r end) (map t_lit user).
 
 Example C11_nonvacuous :
-  let src := lit "package x" ++ [10] ++ lit "import ""fmt""" ++ [10] ++ lit "var a = 1" ++ [10] ++
+  let src := lit "package x" ++ [10] ++ lit "import ""fmt""" ++ [10] ++ lit "import ""io""" ++ [10] ++ lit "import ""fmt""" ++ [10] ++
+             lit "var a = `p" ++ [10] ++ lit "@goht` // }" ++ [10] ++
              lit "@goht T() {" ++ [10; 9] ++ lit "%p" ++ [10] ++ lit "}" ++ [10] in
-  match cli_generate src with
-  | Some out => contains (lit "var a = 1") out && contains ([9] ++ lit """fmt""") out && contains (lit "func T() goht.Template {") out
-  | None => false
+  match compile_parse src, cli_generate src with
+  | ODone (Node (KRoot pkg user) items) None, Some out =>
+      lits_nodup user && forallb (fun i => negb (mem_bytes (t_lit i) c_rootImports)) user && Nat.eqb (List.length user) 1
+      && contains (lit "var a = `p" ++ [10] ++ lit "@goht` // }" ++ [10]) out
+      && contains (lit "func T() goht.Template {") out
+      && beqb out (header_text pkg user ++ List.concat (map item_text items))
+  | _, _ => false
   end = true.
 Proof. vm_compute. reflexivity. Qed.
 Print Assumptions C11_nonvacuous.
